@@ -36,3 +36,8 @@ M("seed-oldest", "bfgsmats.py", "    _X, _G = Deque([X[-1]]), Deque([G[-1]])\n",
 M("seed-pop-after", "bfgsmats.py", "    if len(_G) != len(G) and logger is not None:\n", "    if len(_X) > 3:\n        _X.pop()\n        _G.pop()\n    if len(_G) != len(G) and logger is not None:\n", ["SEED", "MEM"])
 M("flow-args-swapped", "main.py", "f0, f0_old, grad, G = update_fun_def(x, f0, f0_old, grad, X, G)", "f0, f0_old, grad, G = update_fun_def(x, f0, f0_old, grad, G, X)", ["FLOW"], canary=True)
 M("flow-g-not-rebound", "main.py", "f0, f0_old, grad, G = update_fun_def(x, f0, f0_old, grad, X, G)", "f0, f0_old, grad, _G_new = update_fun_def(x, f0, f0_old, grad, X, G)", ["FLOW"])
+
+# ---- MAXLEN (round 3)
+M("maxlen-too-small", "main.py", "    X: Deque[NDArrayFloat] = deque()\n", "    X: Deque[NDArrayFloat] = deque(maxlen=maxcor)\n", ["MAXLEN"], canary=True)
+M("maxlen-from-checkpoint", "main.py", "    G: Deque[NDArrayFloat] = deque()\n", "    G: Deque[NDArrayFloat] = deque(maxlen=len(checkpoint.hess_inv.sk) + 1 if checkpoint is not None else None)\n", ["MAXLEN"])
+Q("maxlen-exact", "main.py", "    X: Deque[NDArrayFloat] = deque()\n", "    X: Deque[NDArrayFloat] = deque(maxlen=maxcor + 1)\n", ["MAXLEN", "MEM"])
